@@ -218,8 +218,12 @@ func (ex *Exec) verifyBody(fn *ssa.Function, fc *FuncContract) {
 			init = sc(ex.eval(g.Init, st, ex.topEnv()).V)
 		} else if srt == SBool {
 			init = TFalse
-		} else {
+		} else if srt == SStr {
+			init = ex.strConst("")
+		} else if srt == SInt {
 			init = I(0)
+		} else {
+			init = ex.vc.Fresh("ghost0."+g.Name, srt)
 		}
 		st.ghost[g.Name] = init
 	}
@@ -282,7 +286,8 @@ func (ex *Exec) verifyBody(fn *ssa.Function, fc *FuncContract) {
 	ex.st = final
 	sig := fn.Signature
 	env := ex.topEnv()
-	env.fr = nil
+	// postconditions may mention locals that are still alive at every exit (by name), after
+	// parameters (entry values) and ghost variables
 	for i := 0; i < sig.Results().Len(); i++ {
 		var vs []Value
 		for _, e := range exits {
@@ -297,6 +302,7 @@ func (ex *Exec) verifyBody(fn *ssa.Function, fc *FuncContract) {
 		if n != "" && n != "_" {
 			env.vars[n] = TV{v, rt}
 		}
+		env.vars[fmt.Sprintf("result%d", i)] = TV{v, rt}
 		if sig.Results().Len() == 1 {
 			env.vars["result"] = TV{v, rt}
 		}
